@@ -1,36 +1,35 @@
 import AlgoVerif.Model.C14
 import AlgoVerif.Model.C14W
+import AlgoVerif.Model.C14S
 import AlgoVerif.Spec.C14
 /-!
-Line-protocol component for C14.  A case builds one graph and queries it:
+Line-protocol component for C14.  A case is a history on graph objects (`Model/C14S.lean`, `World`):
 
-    graph directed|undirected|wdirected|wundirected <n>
-    edge <u> <v> [<w>]
+    graph directed|undirected|wdirected|wundirected <n>     object 0, current
+    edge <u> <v> [<w>]            `AddEdge` on the current object
     paths dfs|dfsi|bfs <s>        all `To(v)`, v = 0 … n-1
     path  dfs|dfsi|bfs <s> <v>    one `To(v)`
     orders dfs|dfsi|bfs           pre/post orders and ranks
     cc | scc | cycle | topo | mst | spt <s> | sptto <s> <v>
-    adj                           the adjacency lists `Adj(v)` of the graph as it is now
-    reverse                       the adjacency lists of `Reverse()` (directed kinds)
+    dump                          `V()`, `E()`, `Adj(v)` (and `InDegree(v)`) of the current object as it is now
+    reverse                       the same of `Reverse()` (directed kinds), the result is thrown away
+    indeg <v> | outdeg <v> | degree <v> | adjof <v> | edges
+    traverse dfs|dfsi|bfs <s> all|<k>   `Traverse` with visitors that log every callback; callback number k
+                                  (from 0) answers `false`
+    mkrev                         `Reverse()` of the current object is kept as a further object (answer: its index)
+    use <i>                       object `i` becomes the current one
 
-`edge` lines may follow queries: the graph value grows and every query is answered on the graph as it is at
-that point (the harness keeps ONE Go graph object per case, so caches that `AddEdge` fails to invalidate
-show up).  A case header may carry `wexp=k`: the harness then hands the library the weights scaled by 2^k
-and divides what it reads back; the Model keeps the integer weights, so the lines are the same.
+`edge` lines and queries interleave freely: every query is answered on the object as it is at that point (the
+harness keeps the Go objects alive for the whole case, so caches that `AddEdge` fails to invalidate and
+objects that share storage show up).  A case header may carry `wexp=k`: the harness then hands the library
+the weights scaled by 2^k (exactly) and divides what it reads back; the Model keeps the integer weights, so
+the lines are the same.
 
 `scc`, `mst`, `spt`, `sptto` additionally print `cert=<b>`: the Spec certificate evaluated on the Model's
 result (the harness prints `cert=true`, so a failing certificate is a difference).
 -/
 namespace AlgoVerif.C14.Driver
 open AlgoVerif AlgoVerif.C14
-
-inductive Kind | directed | undirected | wdirected | wundirected
-  deriving DecidableEq
-
-structure S where
-  kind : Kind
-  g : Graph
-  neg : Bool := false
 
 def parseKind : String → Option Kind
   | "directed" => some .directed
@@ -45,14 +44,6 @@ def parseStrat : String → Option Strategy
   | "bfs" => some .bfs
   | _ => none
 
-def Kind.isDirected : Kind → Bool
-  | .directed | .wdirected => true
-  | _ => false
-
-def Kind.isWeighted : Kind → Bool
-  | .wdirected | .wundirected => true
-  | _ => false
-
 def showOptPath : Option (List Nat) → String
   | some p => showNatList p
   | none => "-"
@@ -64,152 +55,142 @@ def showSptAns : Option (List Edge × Int) → String
   | some (p, d) => s!"{d}[" ++ " ".intercalate (p.map showEdgeD) ++ "]"
   | none => "-"
 
-def showAdj (weighted : Bool) (g : Graph) : String :=
-  " ".intercalate ((List.range g.n).map fun v =>
-    s!"{v}:[" ++ " ".intercalate ((g.adj.getD v []).map fun x =>
-      if weighted then s!"{x.to}:{x.e.w}" else s!"{x.to}") ++ "]")
+/-- one adjacency entry: the neighbour for the unweighted kinds, the stored edge for the weighted ones -/
+def showArc (k : Kind) (x : Arc) : String :=
+  match k with
+  | .directed | .undirected => s!"{x.to}"
+  | .wdirected => showEdgeD x.e
+  | .wundirected => s!"{x.to}:" ++ showEdgeU x.e
 
-def outcomeLine {α : Type} (o : Outcome α) (f : α → String) : String × Bool :=
-  match o with
-  | .ok a => ("ok " ++ f a, false)
-  | .panic => ("panic", true)
-  | .diverge => ("hang", true)
+def showArcs (k : Kind) (l : List Arc) : String := "[" ++ " ".intercalate (l.map (showArc k)) ++ "]"
 
-/-- all `To(v)` of one `Paths` value -/
-def allTo (p : Paths) (n : Nat) : Outcome (List (Nat × Option (List Nat))) :=
-  (List.range n).foldlM (fun acc (v : Nat) => do
-    let r ← p.to (Int.ofNat v)
-    pure (acc ++ [(v, r)])) []
+/-- `V()`, `E()`, `Adj(v)` for every vertex, `InDegree(v)` for every vertex of a directed kind -/
+def showObj (o : GObj) : String :=
+  s!"v={o.V} e={o.E} adj=" ++
+    " ".intercalate ((List.range o.g.n).map fun v => s!"{v}:" ++ showArcs o.kind (o.g.adj.getD v [])) ++
+    (if o.kind.isDirected then " ins=" ++ showNatList ((List.range o.g.n).map fun v => o.ins.getD v 0) else "")
+
+/-- first `panic`/`diverge` of a list of outcomes, else the values -/
+def sequence {α : Type} : List (Outcome α) → Outcome (List α)
+  | [] => .ok []
+  | .ok a :: r => (sequence r).map (a :: ·)
+  | .panic :: _ => .panic
+  | .diverge :: _ => .diverge
 
 def showComponents (c : Components) (comps : Array (List Nat)) : String :=
   s!"count={c.count} id={showNatList c.id.toList} comps=[" ++
     " ".intercalate (comps.toList.map showNatList) ++ "]"
 
-def runOp (st : S) (f : List String) : String × Bool × S :=
-  let g := st.g
-  let bad : String × Bool × S := ("bad-op", false, st)
+/-- some stored edge has a negative weight (then `spt`/`sptto` are outside the property) -/
+def hasNeg (g : Graph) : Bool := g.adj.any fun l => l.any fun x => decide (x.e.w < 0)
+
+def parseQuery (k : Kind) (f : List String) : Option Query :=
+  let q : Option Query :=
+    match f with
+    | ["paths", strat, s] => (parseStrat strat).bind fun st => (parseInt? s).map fun s => .paths st s
+    | ["path", strat, s, v] =>
+      (parseStrat strat).bind fun st => (parseInt? s).bind fun s => (parseInt? v).map fun v => .path st s v
+    | ["orders", strat] => (parseStrat strat).map .orders
+    | ["cc"] => some .cc
+    | ["scc"] => some .scc
+    | ["cycle"] => some .cycle
+    | ["topo"] => some .topo
+    | ["mst"] => some .mst
+    | ["spt", s] => (parseInt? s).map .spt
+    | ["sptto", s, v] => (parseInt? s).bind fun s => (parseInt? v).map fun v => .sptto s v
+    | ["dump"] => some .dump
+    | ["reverse"] => some .reverse
+    | ["indeg", v] => (parseInt? v).map .indeg
+    | ["outdeg", v] => if k.isDirected then (parseInt? v).map .outdeg else none
+    | ["degree", v] => if k.isDirected then none else (parseInt? v).map .outdeg
+    | ["adjof", v] => (parseInt? v).map .adjOf
+    | ["edges"] => some .edges
+    | ["traverse", strat, s, stop] =>
+      (parseStrat strat).bind fun st => (parseInt? s).bind fun s =>
+        if stop == "all" then some (.traverse st s none) else (parseNat? stop).map fun k => .traverse st s (some k)
+    | _ => none
+  q.bind fun q => if q.applies k then some q else none
+
+def parseOp (k : Kind) (f : List String) : Option Op :=
   match f with
   | ["edge", u, v] =>
-    match parseInt? u, parseInt? v with
-    | some u, some v =>
-      if st.kind.isWeighted then bad
-      else
-        let g' := if st.kind.isDirected then g.addEdgeDirected u v 0 else g.addEdgeUndirected u v 0
-        ("ok", false, { st with g := g' })
-    | _, _ => bad
+    if k.isWeighted then none
+    else (parseInt? u).bind fun u => (parseInt? v).map fun v => .edge u v 0
   | ["edge", u, v, w] =>
-    match parseInt? u, parseInt? v, parseInt? w with
-    | some u, some v, some w =>
-      if !st.kind.isWeighted then bad
+    if !k.isWeighted then none
+    else (parseInt? u).bind fun u => (parseInt? v).bind fun v => (parseInt? w).map fun w => .edge u v w
+  | ["mkrev"] => if k.isDirected then some .mkrev else none
+  | ["use", i] => (parseNat? i).map .use
+  | _ => (parseQuery k f).map .query
+
+/-- the output line of a query answered with `a` on the object `o` -/
+def showAnswer (o : GObj) (q : Query) (a : Answer) : Outcome String :=
+  let g := o.g
+  match q, a with
+  | _, .paths l =>
+    (sequence l).map fun rs =>
+      " ".intercalate (((List.range rs.length).zip rs).map fun (v, p) => s!"{v}:{showOptPath p}")
+  | _, .path r => .ok (showOptPath r)
+  | _, .orders o =>
+    .ok s!"pre={showNatList o.preOrder.toList} post={showNatList o.postOrder.toList} prerank={showNatList o.preRank.toList} postrank={showNatList o.postRank.toList}"
+  | .scc, .comps c =>
+    c.components.map fun comps => showComponents c comps ++ s!" cert={showBool (sccCertificate g c)}"
+  | _, .comps c => c.components.map fun comps => showComponents c comps
+  | _, .cycle (some cyc) => .ok (showNatList cyc)
+  | _, .cycle none => .ok "none"
+  | _, .topo t =>
+    match t.order, t.rank with
+    | some o, some r => .ok s!"order={showNatList o} rank={showNatList r.toList}"
+    | _, _ => .ok "none"
+  | _, .mst m =>
+    .ok (s!"weight={m.weight} edges=[" ++ " ".intercalate (m.edges.map showEdgeU) ++
+      s!"] cert={showBool (mstCertificate g m)}")
+  | .spt s, .spt t l =>
+    (sequence l).map fun rs =>
+      let answers := (List.range rs.length).zip rs
+      " ".intercalate (answers.map fun (v, a) => s!"{v}:{showSptAns a}") ++
+        s!" cert={showBool (sptCertificate g s.toNat t answers)}"
+  | .sptto s v, .sptto t r =>
+    .ok (showSptAns r ++ s!" cert={showBool (sptCertificate g s.toNat t [(v.toNat, r)])}")
+  | _, .obj o' => .ok (showObj o')
+  | _, .int i => .ok s!"{i}"
+  | _, .arcs (some l) => .ok (showArcs o.kind l)
+  | _, .arcs none => .ok "nil"
+  | _, .edges l =>
+    .ok ("[" ++ " ".intercalate (l.map (if o.kind.isDirected then showEdgeD else showEdgeU)) ++ "]")
+  | _, .events l =>
+    .ok (" ".intercalate (l.map fun
+      | .pre v => s!"pre:{v}"
+      | .post v => s!"post:{v}"
+      | .edge v w wt => s!"edge:{v}>{w}:{wt}"))
+  | _, _ => .ok "?"
+
+def outcomeLine (o : Outcome String) : String × Bool :=
+  match o with
+  | .ok a => ("ok " ++ a, false)
+  | .panic => ("panic", true)
+  | .diverge => ("hang", true)
+
+def runOp (w : World) (f : List String) : String × Bool × World :=
+  match parseOp w.obj.kind f with
+  | none => ("bad-op", false, w)
+  | some op =>
+    match op with
+    | .query q =>
+      let negSpt := (match q with | .spt _ | .sptto .. => true | _ => false) && hasNeg w.obj.g
+      if negSpt then ("ok unsupported-negative-weight", false, w)
       else
-        let g' := if st.kind.isDirected then g.addEdgeDirected u v w else g.addEdgeUndirected u v w
-        ("ok", false, { st with g := g', neg := st.neg || (decide (w < 0) && g.isVertexValid u && g.isVertexValid v) })
-    | _, _, _ => bad
-  | ["paths", strat, s] =>
-    match parseStrat strat, parseInt? s with
-    | some strat, some s =>
-      let r := do
-        let p ← g.paths s strat
-        allTo p g.n
-      let (l, dead) := outcomeLine r fun l => " ".intercalate (l.map fun (v, p) => s!"{v}:{showOptPath p}")
-      (l, dead, st)
-    | _, _ => bad
-  | ["path", strat, s, v] =>
-    match parseStrat strat, parseInt? s, parseInt? v with
-    | some strat, some s, some v =>
-      let r := do
-        let p ← g.paths s strat
-        p.to v
-      let (l, dead) := outcomeLine r showOptPath
-      (l, dead, st)
-    | _, _, _ => bad
-  | ["orders", strat] =>
-    match parseStrat strat with
-    | some strat =>
-      let (l, dead) := outcomeLine (g.orders strat) fun o =>
-        s!"pre={showNatList o.preOrder.toList} post={showNatList o.postOrder.toList} prerank={showNatList o.preRank.toList} postrank={showNatList o.postRank.toList}"
-      (l, dead, st)
-    | none => bad
-  | ["adj"] => ("ok " ++ showAdj st.kind.isWeighted g, false, st)
-  | ["reverse"] =>
-    if !st.kind.isDirected then bad
-    else ("ok " ++ showAdj st.kind.isWeighted g.reverse, false, st)
-  | ["cc"] =>
-    if st.kind.isDirected then bad
-    else
-      let r := do
-        let c ← g.connectedComponents
-        let comps ← c.components
-        pure (c, comps)
-      let (l, dead) := outcomeLine r fun (c, comps) => showComponents c comps
-      (l, dead, st)
-  | ["scc"] =>
-    if !st.kind.isDirected then bad
-    else
-      let r := do
-        let c ← g.stronglyConnectedComponents
-        let comps ← c.components
-        pure (c, comps)
-      let (l, dead) := outcomeLine r fun (c, comps) =>
-        showComponents c comps ++ s!" cert={showBool (sccCertificate g c)}"
-      (l, dead, st)
-  | ["cycle"] =>
-    if st.kind != .directed then bad
-    else
-      let (l, dead) := outcomeLine g.directedCycle fun c =>
-        match c.cycleList with
-        | some cyc => showNatList cyc
-        | none => "none"
-      (l, dead, st)
-  | ["topo"] =>
-    if st.kind != .directed then bad
-    else
-      let (l, dead) := outcomeLine g.topological fun t =>
-        match t.order, t.rank with
-        | some o, some r => s!"order={showNatList o} rank={showNatList r.toList}"
-        | _, _ => "none"
-      (l, dead, st)
-  | ["mst"] =>
-    if st.kind != .wundirected then bad
-    else
-      let (l, dead) := outcomeLine g.minimumSpanningTree fun m =>
-        s!"weight={m.weight} edges=[" ++ " ".intercalate (m.edges.map showEdgeU) ++ s!"] cert={showBool (mstCertificate g m)}"
-      (l, dead, st)
-  | ["spt", s] =>
-    match parseInt? s with
-    | some s =>
-      if st.kind != .wdirected then bad
-      else if st.neg then ("ok unsupported-negative-weight", false, st)
-      else
-        let r := do
-          let t ← g.shortestPathTree s
-          let answers ← (List.range g.n).foldlM (fun acc (v : Nat) => do
-            let a ← t.pathTo (Int.ofNat v)
-            pure (acc ++ [(v, a)])) []
-          pure (t, answers)
-        let (l, dead) := outcomeLine r fun (t, answers) =>
-          " ".intercalate (answers.map fun (v, a) => s!"{v}:{showSptAns a}") ++
-            s!" cert={showBool (sptCertificate g s.toNat t answers)}"
-        (l, dead, st)
-    | none => bad
-  | ["sptto", s, v] =>
-    match parseInt? s, parseInt? v with
-    | some s, some v =>
-      if st.kind != .wdirected then bad
-      else if st.neg then ("ok unsupported-negative-weight", false, st)
-      else
-        let r := do
-          let t ← g.shortestPathTree s
-          let a ← t.pathTo v
-          pure (t, a)
-        let (l, dead) := outcomeLine r fun (t, a) =>
-          showSptAns a ++ s!" cert={showBool (sptCertificate g s.toNat t [(v.toNat, a)])}"
-        (l, dead, st)
-    | _, _ => bad
-  | _ => bad
+        let r := w.step op
+        let (l, dead) := outcomeLine (r.2.bind (showAnswer w.obj q))
+        (l, dead, r.1)
+    | .mkrev =>
+      let r := w.step op
+      (s!"ok obj={w.objs.size}", false, r.1)
+    | .use i => if i < w.objs.size then ("ok", false, (w.step op).1) else ("bad-op", false, w)
+    | .edge .. => ("ok", false, (w.step op).1)
 
 def runCase (_hdr : List String) (ops : List String) : List String := Id.run do
-  let mut st : Option S := none
+  let mut st : Option World := none
   let mut dead := false
   let mut out : Array String := #[]
   for line in ops do
@@ -217,7 +198,7 @@ def runCase (_hdr : List String) (ops : List String) : List String := Id.run do
     match words line, st with
     | ["graph", kind, n], none =>
       match parseKind kind, parseNat? n with
-      | some k, some n => st := some { kind := k, g := Graph.new n }; out := out.push "ok"
+      | some k, some n => st := some (World.init k n); out := out.push "ok"
       | _, _ => out := out.push "bad-op"
     | f, some s =>
       let (l, d, s') := runOp s f
